@@ -141,3 +141,11 @@ var tokenRe = regexp.MustCompile(`[0-9a-f]{32}`)
 func newToken(r *core.Rand) string { return fmt.Sprintf("%016x%016x", r.U64(), r.U64()) }
 
 func tokensIn(s string) []string { return tokenRe.FindAllString(s, -1) }
+
+// sortVals sorts the values of every key (in place) and returns the table.
+func sortVals(h hdrTab) hdrTab {
+	for _, v := range h {
+		sort.Strings(v)
+	}
+	return h
+}
